@@ -32,7 +32,8 @@ ASSUMPTIONS = ["reference evaluation over the object graph in vpmon/gen/relation
 SHARDS = {"quick": 12, "thorough": 16}
 BUDGET_S = {"quick": 55, "thorough": 800}
 
-ROOTS = {"post": ("Post", "post"), "author": ("Author", "author")}
+ROOTS = {"post": ("Post", "post"), "author": ("Author", "author"), "comment": ("Comment", "comment"),
+         "tag": ("Tag", "tag"), "country": ("Country", "country")}
 
 
 def run_django(entity, text):
@@ -129,7 +130,7 @@ def judge(ctx, graph, inst_name, entity, t, lane):
             t2 = small
         else:
             t2 = t
-        keys = findings.relational_triggers(t2, backend, flags, prob)
+        keys = findings.relational_triggers(t2, backend, flags, prob, root=entity)
         ctx.fail({"filter": to_text(t2), "root": entity, "backend": backend, "instance": inst_name,
                   "term": t2, "instance_data": graph.inst if len(str(graph.inst)) < 6000 else None},
                  prob, expected="parents per OData semantics", observed=detail, keys=keys,
@@ -155,7 +156,9 @@ def run(ctx):
         for i in range(per_inst):
             if ctx.out_of_time():
                 break
-            entity = "post" if rng.random() < 0.7 else "author"
+            r = rng.random()
+            entity = ("post" if r < 0.45 else "author" if r < 0.65 else "comment" if r < 0.85
+                      else "tag" if r < 0.93 else "country")
             lane = "judged"
             opts = {}
             if i % 10 == 9:
@@ -173,7 +176,7 @@ def run(ctx):
 def requirements(m):
     out = []
     for k in ("kind:lam:any", "kind:lam:all", "kind:attr", "kind:and", "kind:or", "kind:not",
-              "kind:lit:null", "root:post", "root:author"):
+              "kind:lit:null", "root:post", "root:author", "root:comment", "root:tag", "root:country"):
         if not m["classes"].get(k):
             out.append("construct never exercised: " + k)
     if m["classes"].get("instances", 0) < 4:
